@@ -7,7 +7,11 @@
              inside one call), no [TLeak].
      Part 3  whole runs; [completion_ctx].
      Part 4  C11: via / typed_via / with_scheduler_affinity complete on the scheduler's context, on() starts
-             its sender there. *)
+             its sender there.
+     Part 5  [stage 4] a value whose copy throws, delivered to a storing node, becomes set_error there (C05).
+   Stage 4 of the model (OValT / OValK) only touches leafev's child calls: they are factored as [child_ev]
+   ([child_ev_cases]: the result is one leafev result on the child from the same state, up to a caught
+   exception), so every invariant proved for leafev on the child carries over. *)
 From Coq Require Import ZArith List Bool Lia Arith.
 From V Require Import Calc.Calc2Defs.
 Import ListNotations.
@@ -197,6 +201,17 @@ Definition stop_conc (k : bkind) (a b : sexpr) (ns : nst) (sa sb : ost) (cx : na
       finish_conc k a b ns3 sa' sb' (trb ++ tra) fin2 (leaky k)
   end.
 
+(* [stage 4] what a node sees of its child when an external completion is delivered below it: the child is
+   called with [oin]; if it completes with a value whose copy throws (OValT) and this node lets the exception
+   leave its set_value ([thr]) the completion is delivered again - from the same child state - as OValK; a
+   catching forwarder ([cat]) whose consumer throws turns it into OErr tcode *)
+Definition child_ev (thr cat : bool) (c : sexpr) (sc : ost) (id : nat) (oin o : outcome) (cx : nat) : res * bool :=
+  let '(r0, hit) := leafev c sc id oin cx in
+  (match thrown r0 with
+   | Some v => if thr then fst (leafev c sc id (OValK v) cx) else caught cat o r0
+   | None => r0
+   end, hit).
+
 (* let_value_with_stop_source: a LeafR below asked for stop on this node's source *)
 Definition fired_body (k : ukind) (s : sexpr) (ns : nst) (sc' : ost) (tr : list tev) (id : nat) (o : outcome)
            (cx : nat) (hit : bool) : res * bool :=
@@ -213,7 +228,7 @@ Definition fired_body (k : ukind) (s : sexpr) (ns : nst) (sc' : ost) (tr : list 
   end.
 
 Definition leafev_un_body (k : ukind) (s : sexpr) (ns : nst) (sc : ost) (id : nat) (o : outcome) (cx : nat) : res * bool :=
-  let '((sc', tr, r), hit) := leafev s sc id o cx in
+  let '((sc', tr, r), hit) := child_ev (un_throw k) (un_catch k) s sc id (un_in k o) o cx in
   match r with
   | Some oc => (un_fin k s ns sc' tr oc (start s (un_env k (n_env ns)) cx), hit)
   | None =>
@@ -222,7 +237,7 @@ Definition leafev_un_body (k : ukind) (s : sexpr) (ns : nst) (sc : ost) (id : na
   end.
 
 Definition leafev_seq1 (k : bkind) (a b : sexpr) (ns : nst) (sa sb : ost) (id : nat) (o : outcome) (cx : nat) : res * bool :=
-  let '((sa', tra, ra), hit) := leafev a sa id o cx in
+  let '((sa', tra, ra), hit) := child_ev (bin_throw k false) (bin_catch k false) a sa id (bin_in k false o) o cx in
   match ra with
   | None => ((ONode ns sa' sb, tra, None), hit)
   | Some oa =>
@@ -230,7 +245,7 @@ Definition leafev_seq1 (k : bkind) (a b : sexpr) (ns : nst) (sa sb : ost) (id : 
   end.
 
 Definition leafev_seq2 (k : bkind) (a b : sexpr) (ns : nst) (sa sb : ost) (id : nat) (o : outcome) (cx : nat) : res * bool :=
-  let '((sb', trb, rb), hit) := leafev b sb id o cx in
+  let '((sb', trb, rb), hit) := child_ev (bin_throw k true) (bin_catch k true) b sb id (bin_in k true o) o cx in
   match rb with
   | None => ((ONode ns sa sb', trb, None), hit)
   | Some ob =>
@@ -241,7 +256,8 @@ Definition reap_ev (k : bkind) (c : sexpr) (x : res * bool) : res * bool := (con
 
 Definition leafev_conc (k : bkind) (a b : sexpr) (ns : nst) (sa sb : ost) (id : nat) (o : outcome) (cx : nat) : res * bool :=
   let '((sa', tra, ra), hita) :=
-      if adone ns then ((sa, [], None), false) else reap_ev k a (leafev a sa id o cx) in
+      if adone ns then ((sa, [], None), false)
+      else reap_ev k a (child_ev (bin_throw k false) false a sa id (tmode o) o cx) in
   if hita then
     match ra with
     | None => ((ONode ns sa' sb, tra, None), true)
@@ -249,7 +265,7 @@ Definition leafev_conc (k : bkind) (a b : sexpr) (ns : nst) (sa sb : ost) (id : 
     end
   else
     let '((sb', trb, rb), hitb) :=
-        if bdone ns then ((sb, [], None), false) else reap_ev k b (leafev b sb id o cx) in
+        if bdone ns then ((sb, [], None), false) else reap_ev k b (leafev b sb id (tmode o) cx) in
     match rb with
     | None => ((ONode ns sa sb', trb, None), hitb)
     | Some ob => (conc_b_done k a b ns sa sb' trb ob cx, hitb)
@@ -334,8 +350,9 @@ Proof. destruct k; reflexivity. Qed.
 Lemma leafev_un k s ns sc sb id o cx :
   leafev (Un k s) (ONode ns sc sb) id o cx = leafev_un_body k s ns sc id o cx.
 Proof.
-  unfold leafev_un_body, fired_body. destruct k; simpl;
-    destruct (leafev s sc id o cx) as [[[sc' tr] r] hit]; destruct r; reflexivity.
+  unfold leafev_un_body, fired_body, child_ev. destruct k; simpl;
+    match goal with |- context[leafev s sc id ?X cx] => destruct (leafev s sc id X cx) as [r0 hit] end;
+    destruct (thrown r0); repeat (bmg; try reflexivity).
 Qed.
 
 Lemma leafev_bin_seq k a b ns sa sb id o cx : is_seq k = true ->
@@ -345,9 +362,44 @@ Lemma leafev_bin_seq k a b ns sa sb id o cx : is_seq k = true ->
   | _ => leafev_seq2 k a b ns sa sb id o cx
   end.
 Proof.
-  unfold leafev_seq1, leafev_seq2.
+  unfold leafev_seq1, leafev_seq2, child_ev.
   destruct k; intros H; try discriminate H; simpl; destruct (ph ns);
-    repeat (bmg; try reflexivity).
+    match goal with |- context[leafev ?c ?sc id ?X cx] => destruct (leafev c sc id X cx) as [r0 hit] end;
+    destruct (thrown r0); repeat (bmg; try reflexivity).
+Qed.
+
+Lemma caught_false o r : caught false o r = r.
+Proof. destruct r as [[st tr] [[]|]]; reflexivity. Qed.
+
+(* the child's result as the node sees it is the result of ONE call of leafev on the child from the same
+   child state (with the original input, or re-delivered as OValK), up to a caught exception that replaces the
+   outcome OValT by OErr tcode *)
+Lemma child_ev_cases thr cat c sc id oin o cx r hit :
+  child_ev thr cat c sc id oin o cx = (r, hit) ->
+  hit = snd (leafev c sc id oin cx) /\
+  exists oin' st tr ro h, leafev c sc id oin' cx = ((st, tr, ro), h) /\
+    exists r', r = (st, tr, r') /\ (r' = ro \/ exists v, ro = Some (OValT v) /\ r' = Some (OErr tcode)).
+Proof.
+  unfold child_ev. destruct (leafev c sc id oin cx) as [[[st0 tr0] ro0] h0] eqn:E0. intros H.
+  injection H as H <-. split; [reflexivity|].
+  assert (Plain : r = (st0, tr0, ro0) ->
+          exists oin' st tr ro h, leafev c sc id oin' cx = ((st, tr, ro), h) /\
+          exists r', r = (st, tr, r') /\ (r' = ro \/ exists v, ro = Some (OValT v) /\ r' = Some (OErr tcode))).
+  { intros ->. exists oin, st0, tr0, ro0, h0. split; [exact E0|]. exists ro0. auto. }
+  destruct ro0 as [o0|]; [destruct o0|]; simpl in H; try (apply Plain; symmetry; exact H).
+  destruct thr.
+  - destruct (leafev c sc id (OValK v) cx) as [[[st1 tr1] ro1] h1] eqn:E1. simpl in H. subst r.
+    exists (OValK v), st1, tr1, ro1, h1. split; [exact E1|]. exists ro1. auto.
+  - destruct (cat && is_k o)%bool; [|apply Plain; symmetry; exact H]. subst r.
+    exists oin, st0, tr0, (Some (OValT v)), h0. split; [exact E0|]. exists (Some (OErr tcode)). split; [reflexivity|].
+    right. eauto.
+Qed.
+Lemma child_ev_none thr cat c sc id oin o cx st tr r hit :
+  child_ev thr cat c sc id oin o cx = ((st, tr, r), hit) ->
+  exists oin' ro h, leafev c sc id oin' cx = ((st, tr, ro), h) /\ (r = None <-> ro = None).
+Proof.
+  intros H. apply child_ev_cases in H. destruct H as (_ & oin' & st1 & tr1 & ro & h & E & r' & Er & Hr).
+  inv Er. exists oin', ro, h. split; [exact E|]. destruct Hr as [->|(v & -> & ->)]; split; congruence.
 Qed.
 
 Lemma leafev_bin_conc k a b ns sa sb id o cx : is_seq k = false ->
@@ -355,7 +407,12 @@ Lemma leafev_bin_conc k a b ns sa sb id o cx : is_seq k = false ->
 Proof.
   intros H.
   assert (E : leafev (Bin k a b) (ONode ns sa sb) id o cx =
-        let '((sa', tra, ra), hita) := if adone ns then ((sa, [], None), false) else (let (r, h) := leafev a sa id o cx in (conc_reap k a r, h)) in
+        let '((sa', tra, ra), hita) := if adone ns then ((sa, [], None), false) else (let (r0, h) := leafev a sa id (tmode o) cx in
+              let r := match thrown r0 with
+                       | Some v => if bin_throw k false then fst (leafev a sa id (OValK v) cx) else r0
+                       | None => r0
+                       end in
+              (conc_reap k a r, h)) in
         if hita then
           match ra with
           | None => ((ONode ns sa' sb, tra, None), true)
@@ -376,7 +433,7 @@ Proof.
               end
           end
         else
-          let '((sb', trb, rb), hitb) := if bdone ns then ((sb, [], None), false) else (let (r, h) := leafev b sb id o cx in (conc_reap k b r, h)) in
+          let '((sb', trb, rb), hitb) := if bdone ns then ((sb, [], None), false) else (let (r, h) := leafev b sb id (tmode o) cx in (conc_reap k b r, h)) in
           match rb with
           | None => ((ONode ns sa sb', trb, None), hitb)
           | Some ob =>
@@ -396,16 +453,27 @@ Proof.
               end
           end).
   { destruct k; try discriminate H; reflexivity. }
-  rewrite E. clear E. unfold leafev_conc, conc_a_done, conc_b_done, reap_ev.
+  rewrite E. clear E. unfold leafev_conc, conc_a_done, conc_b_done, reap_ev, child_ev.
   destruct (adone ns).
   - destruct (bdone ns); [reflexivity|].
-    destruct (leafev b sb id o cx) as [rr hh]. simpl.
+    destruct (leafev b sb id (tmode o) cx) as [rr hh]. simpl.
     repeat (bmg; try reflexivity).
-  - destruct (leafev a sa id o cx) as [rr hh]. simpl.
-    destruct (conc_reap k a rr) as [[sa' tra] ra]. destruct hh.
+  - destruct (leafev a sa id (tmode o) cx) as [r0 hh]. cbn [fst snd].
+    assert (Ec : match thrown r0 with
+                 | Some v => if bin_throw k false then fst (leafev a sa id (OValK v) cx) else caught false o r0
+                 | None => r0 end =
+                 match thrown r0 with
+                 | Some v => if bin_throw k false then fst (leafev a sa id (OValK v) cx) else r0
+                 | None => r0 end).
+    { destruct (thrown r0); [|reflexivity]. destruct (bin_throw k false); [reflexivity|].
+      apply caught_false. }
+    rewrite Ec. clear Ec.
+    destruct (conc_reap k a match thrown r0 with
+                 | Some v => if bin_throw k false then fst (leafev a sa id (OValK v) cx) else r0
+                 | None => r0 end) as [[sa' tra] ra]. destruct hh.
     + repeat (bmg; try reflexivity).
     + destruct (bdone ns); [reflexivity|].
-      destruct (leafev b sb id o cx) as [rr2 hh2]. simpl.
+      destruct (leafev b sb id (tmode o) cx) as [rr2 hh2]. simpl.
       repeat (bmg; try reflexivity).
 Qed.
 
@@ -431,16 +499,17 @@ Lemma ccd_spec k ns i o ns2 newly fin :
   (newly = true -> own_stop ns = false) /\
   (fin = None <-> (adone ns2 && bdone ns2)%bool = false).
 Proof.
-  unfold conc_child_done. intros H.
-  set (v := match o with OVal v => v | _ => 0 end) in H.
+  unfold conc_child_done. intros H. cbv zeta in H.
+  set (o' := conc_in k o) in H.
+  set (v := match o' with OVal v => v | _ => 0 end) in H.
   set (nw := match k with
-             | BWhenAll => match o with OVal _ => false | _ => negb (own_stop ns) end
+             | BWhenAll => match o' with OVal _ => false | _ => negb (own_stop ns) end
              | _ => negb (own_stop ns) end) in H.
   set (sv := match k with
              | BWhenAll => _
              | BWhenAny => _
-             | _ => if i then saved ns else Some o end) in H.
-  set (cl := match k, o, cell ns with BWhenAny, OVal v, None => Some v | _, _, _ => cell ns end) in H.
+             | _ => if i then saved ns else Some o' end) in H.
+  set (cl := match k, o', cell ns with BWhenAny, OVal v, None => Some v | _, _, _ => cell ns end) in H.
   set (n2 := ns_set_cell (ns_set_saved (ns_set_own (ns_child_done ns i v) (own_stop ns || nw)) sv) cl) in H.
   assert (E1 : n_env n2 = n_env ns) by (destruct i; reflexivity).
   assert (E2 : ph n2 = ph ns) by (destruct i; reflexivity).
@@ -449,7 +518,7 @@ Proof.
   assert (E5 : bdone n2 = if i then true else bdone ns) by (destruct i; reflexivity).
   assert (E6 : own_stop n2 = (own_stop ns || nw)%bool) by (destruct i; reflexivity).
   assert (E7 : nw = true -> own_stop ns = false).
-  { unfold nw. destruct k, o, (own_stop ns); simpl; congruence. }
+  { unfold nw. destruct k, o', (own_stop ns); simpl; congruence. }
   clearbody n2 nw.
   destruct (adone n2 && bdone n2)%bool eqn:Hc; inv H;
     (repeat split; try assumption; try congruence; intros; try discriminate).
@@ -716,8 +785,35 @@ Proof.
            apply trok_un. apply dtor_ok.
         -- inv H. split; [apply trok_cons; [exact I|auto]|]. split; [discriminate|intros; exact I].
         -- inv H. split; [apply trok_cons; [exact I|auto]|]. split; [discriminate|intros; exact I].
+        -- inv H. split; [apply trok_cons; [exact I|auto]|]. split; [discriminate|intros; exact I].
+        -- inv H. split; [apply trok_cons; [exact I|auto]|]. split; [discriminate|intros; exact I].
       * inv H. split; [apply trok_cons; [exact I|auto]|]. split; [auto|congruence].
 Qed.
+
+(* [stage 4] value-like outcomes: the node discards the value by reference *)
+Definition is_val (o : outcome) : bool := match o with OVal _ | OValT _ => true | _ => false end.
+Lemma rep_done_eq l s ns sc tr o r0 :
+  rep_done l s ns sc tr o r0 =
+  if is_val o then
+    let '(i', (sc', tr', r')) := rep_loop s r0 (skipn (n_iter ns) l) (n_iter ns) in
+    match r' with
+    | None => (ONode (ns_set_iter ns i') sc' OFin, tr ++ dtor s sc ++ tr', None)
+    | Some o' => (sc', tr ++ dtor s sc ++ tr', Some o')
+    end
+  else (OCompl sc OFin, tr, Some o).
+Proof. destruct o; reflexivity. Qed.
+Lemma retry_b_done_eq n a b ns sb tr ob r0a r0bl :
+  retry_b_done n a b ns sb tr ob r0a r0bl =
+  if is_val ob then
+    let '(sa, tra, ra) := r0a in
+    let pre := tr ++ dtor b sb ++ tra in
+    match ra with
+    | None => (ONode (ns_set_ph ns PFirst) sa OFin, pre, None)
+    | Some (OErr e') => retry_node ns (retry_err a b r0a r0bl (n - n_iter ns) (n_iter ns) r0bl e') (pre ++ dtor a sa)
+    | Some o => (OCompl sa OFin, pre, Some o)
+    end
+  else (OFin, tr ++ dtor b sb, Some ob).
+Proof. destruct ob; reflexivity. Qed.
 
 Lemma rep_done_q l s sm cx ns sc tr o sc0 tr0 rr0 st tr' r :
   nok sm ns -> trok (Un (URepeat l) s) sm cx tr ->
@@ -725,8 +821,8 @@ Lemma rep_done_q l s sm cx ns sc tr o sc0 tr0 rr0 st tr' r :
   rep_done l s ns sc tr o (sc0, tr0, rr0) = (st, tr', r) ->
   qwf (Un (URepeat l) s) sm st /\ trok (Un (URepeat l) s) sm cx tr'.
 Proof.
-  intros Hn Ht Ht0 Hq0 H. unfold rep_done in H.
-  destruct o; try (inv H; split; auto with calc; fail).
+  intros Hn Ht Ht0 Hq0 H. rewrite rep_done_eq in H.
+  destruct (is_val o); [|inv H; split; auto with calc].
   destruct (rep_loop s (sc0, tr0, rr0) (skipn (n_iter ns) l) (n_iter ns)) as [i' [[sc' tr2] r2]] eqn:Hr.
   destruct (rep_loop_q _ _ _ _ _ _ _ Ht0 Hq0 _ _ _ _ _ _ Hr) as (T & Q & N).
   assert (Hall : trok (Un (URepeat l) s) sm cx (tr ++ dtor s sc ++ tr2)).
@@ -797,8 +893,14 @@ Proof.
               split; [|auto]. tk.
            ++ inv H. split; [|split; [discriminate|intros; exact I]].
               apply trok_cons; [exact I|]. auto with calc.
+           ++ inv H. split; [|split; [discriminate|intros; exact I]].
+              apply trok_cons; [exact I|]. auto with calc.
+           ++ inv H. split; [|split; [discriminate|intros; exact I]].
+              apply trok_cons; [exact I|]. auto with calc.
         -- inv H. split; [apply trok_cons; [exact I|]; auto with calc|]. split; [|congruence].
            intros _. exists sa0, OFin. auto with calc.
+      * inv H. split; [apply trok_cons; [exact I|]; auto with calc|]. split; [discriminate|intros; exact I].
+      * inv H. split; [apply trok_cons; [exact I|]; auto with calc|]. split; [discriminate|intros; exact I].
       * inv H. split; [apply trok_cons; [exact I|]; auto with calc|]. split; [discriminate|intros; exact I].
       * inv H. split; [apply trok_cons; [exact I|]; auto with calc|]. split; [discriminate|intros; exact I].
     + inv H. split; [apply trok_cons; [exact I|]; auto with calc|]. split; [|congruence].
@@ -892,8 +994,8 @@ Lemma b_done_q k a b sm cx ns sb trb ob sa0 tra0 ra0 sbl trbl rbl st tr r :
 Proof.
   intros Hk Hn Htb Hqa0 Hta0 Hql Htl H. unfold b_done in H.
   destruct k; try (eapply seq_final_q; eassumption).
-  unfold retry_b_done in H.
-  destruct ob; try (inv H; split; auto with calc; fail).
+  rewrite retry_b_done_eq in H.
+  destruct (is_val ob); [|inv H; split; auto with calc].
   destruct ra0 as [oa|].
   - destruct oa; try (inv H; split; auto 6 with calc; fail).
     destruct (retry_err a b (sa0, tra0, Some (OErr e)) (sbl, trbl, rbl) (n - n_iter ns) (n_iter ns) (sbl, trbl, rbl) e)
@@ -1058,14 +1160,23 @@ Proof.
     eapply finish_q; eauto with calc.
 Qed.
 
-Lemma opt_leafev_q k c smc cx (d : bool) sc id o sc' tr r hit :
+Lemma child_ev_q thr cat c smc cx sc id oin o sc' tr r hit :
   LeafevQ c -> qwf c smc sc ->
-  (if d then ((sc, [], None), false) else reap_ev k c (leafev c sc id o cx)) = ((sc', tr, r), hit) ->
+  child_ev thr cat c sc id oin o cx = ((sc', tr, r), hit) ->
+  qwf c smc sc' /\ trok c smc cx tr.
+Proof.
+  intros L Hq H. apply child_ev_none in H. destruct H as (oin' & ro & h & E & _).
+  exact (L _ _ _ _ _ _ _ _ _ E Hq).
+Qed.
+
+Lemma opt_leafev_q k c smc cx (d : bool) sc (X : res * bool) sc' tr r hit :
+  (forall s1 t1 r1 h1, X = ((s1, t1, r1), h1) -> qwf c smc s1 /\ trok c smc cx t1) -> qwf c smc sc ->
+  (if d then ((sc, [], None), false) else reap_ev k c X) = ((sc', tr, r), hit) ->
   qwf c smc sc' /\ trok c smc cx tr.
 Proof.
   intros L Hq H. destruct d; [inv H; auto with calc|].
-  destruct (leafev c sc id o cx) as [[[s0 t0] r0] h0] eqn:Hs.
-  destruct (L _ _ _ _ _ _ _ _ _ Hs Hq) as [Q T].
+  destruct X as [[[s0 t0] r0] h0] eqn:Hs.
+  destruct (L _ _ _ _ eq_refl) as [Q T].
   unfold reap_ev in H. simpl in H. injection H as H Hh.
   destruct (conc_reap_q _ _ _ _ _ _ _ _ _ _ H Q T) as (Q' & T' & _). auto.
 Qed.
@@ -1078,17 +1189,20 @@ Lemma leafev_conc_q k a b sm cx ns sa sb id o st' tr r hit :
   qwf (Bin k a b) sm st' /\ trok (Bin k a b) sm cx tr.
 Proof.
   intros Hk La Lb Pa Pb Hn Hqa Hqb H. unfold leafev_conc in H.
-  destruct (if adone ns then (sa, [], None, false) else reap_ev k a (leafev a sa id o cx))
+  destruct (if adone ns then (sa, [], None, false)
+            else reap_ev k a (child_ev (bin_throw k false) false a sa id (tmode o) o cx))
     as [[[sa' tra] ra] hita] eqn:Ha.
-  destruct (opt_leafev_q _ _ _ _ _ _ _ _ _ _ _ _ La Hqa Ha) as [Hqa' Hta].
+  destruct (opt_leafev_q k a (bin_sum k sm) cx _ _ _ _ _ _ _
+              (fun s1 t1 r1 h1 E => child_ev_q _ _ _ _ _ _ _ _ _ _ _ _ _ La Hqa E) Hqa Ha) as [Hqa' Hta].
   apply (trok_bin_a k a b) in Hta.
   destruct hita.
   - destruct ra as [oa|].
     + injection H as H Hhit. eapply conc_a_done_q; [..|exact H]; eauto with calc.
     + inv H. rewrite qwf_bin. auto.
-  - destruct (if bdone ns then (sb, [], None, false) else reap_ev k b (leafev b sb id o cx))
+  - destruct (if bdone ns then (sb, [], None, false) else reap_ev k b (leafev b sb id (tmode o) cx))
       as [[[sb' trb] rb] hitb] eqn:Hb.
-    destruct (opt_leafev_q _ _ _ _ _ _ _ _ _ _ _ _ Lb Hqb Hb) as [Hqb' Htb].
+    destruct (opt_leafev_q k b (bin_sum k sm) cx _ _ _ _ _ _ _
+                (fun s1 t1 r1 h1 E => Lb _ _ _ _ _ _ _ _ _ E Hqb) Hqb Hb) as [Hqb' Htb].
     apply (trok_bin_b k a b) in Htb.
     destruct rb as [ob|].
     + injection H as H Hhit. eapply conc_b_done_q; [..|exact H]; eauto with calc.
@@ -1236,8 +1350,8 @@ Proof.
         |simpl in H; inv H; auto with calc].
       rewrite qwf_un in Hq. destruct Hq as [Hn Hq].
       rewrite leafev_un in H. unfold leafev_un_body in H.
-      destruct (leafev s sc i o cx) as [[[sc' tr1] r1] h1] eqn:Hs.
-      destruct (Ls _ _ _ _ _ _ _ _ _ Hs Hq) as [Hq' Ht]. apply trok_un in Ht.
+      destruct (child_ev (un_throw k) (un_catch k) s sc i (un_in k o) o cx) as [[[sc' tr1] r1] h1] eqn:Hs.
+      destruct (child_ev_q _ _ _ _ _ _ _ _ _ _ _ _ _ Ls Hq Hs) as [Hq' Ht]. apply trok_un in Ht.
       destruct r1 as [o1|].
       * injection H as H Hh.
         destruct (start s (un_env k (n_env ns)) cx) as [[sc0 tr0] rr0] eqn:H0.
@@ -1344,8 +1458,10 @@ Proof.
           rewrite <- (bin_sum_seq k sm Hk) in Q, T. apply (trok_bin_a k a b) in T.
           destruct (r0bl_of_q k a b _ _ _ _ _ _ Hk Sb Hg2 E2) as [Q2 T2]. rewrite Hs2 in Q2, T2. auto. }
         destruct (ph ns).
-        -- unfold leafev_seq1 in H. destruct (leafev a sa i o cx) as [[[sa' tra] ra] h1] eqn:Ha.
-           destruct (La _ _ _ _ _ _ _ _ _ Ha Hqa) as [Hqa' Hta]. apply (trok_bin_a k a b) in Hta.
+        -- unfold leafev_seq1 in H.
+           destruct (child_ev (bin_throw k false) (bin_catch k false) a sa i (bin_in k false o) o cx)
+             as [[[sa' tra] ra] h1] eqn:Ha.
+           destruct (child_ev_q _ _ _ _ _ _ _ _ _ _ _ _ _ La Hqa Ha) as [Hqa' Hta]. apply (trok_bin_a k a b) in Hta.
            destruct ra as [oa|].
            ++ injection H as H Hh.
               destruct (start a (n_env ns) cx) as [[sa0 tra0] ra0] eqn:E1.
@@ -1353,8 +1469,10 @@ Proof.
               destruct (R0 _ _ _ _ _ _ eq_refl E2) as (Q1 & T1 & Q2 & T2).
               eapply a_done_q; [exact Hk|exact Sb|exact Hn|exact Hta|exact Q1|exact T1|exact Q2|exact T2|exact H].
            ++ inv H. rewrite qwf_bin. auto.
-        -- unfold leafev_seq2 in H. destruct (leafev b sb i o cx) as [[[sb' trb] rb] h1] eqn:Hb.
-           destruct (Lb _ _ _ _ _ _ _ _ _ Hb Hqb) as [Hqb' Htb]. apply (trok_bin_b k a b) in Htb.
+        -- unfold leafev_seq2 in H.
+           destruct (child_ev (bin_throw k true) (bin_catch k true) b sb i (bin_in k true o) o cx)
+             as [[[sb' trb] rb] h1] eqn:Hb.
+           destruct (child_ev_q _ _ _ _ _ _ _ _ _ _ _ _ _ Lb Hqb Hb) as [Hqb' Htb]. apply (trok_bin_b k a b) in Htb.
            destruct rb as [ob|].
            ++ injection H as H Hh.
               destruct (start a (n_env ns) cx) as [[sa0 tra0] ra0] eqn:E1.
@@ -1362,8 +1480,10 @@ Proof.
               destruct (R0 _ _ _ _ _ _ eq_refl E2) as (Q1 & T1 & Q2 & T2).
               eapply b_done_q; [exact Hk|exact Hn|exact Htb|exact Q1|exact T1|exact Q2|exact T2|exact H].
            ++ inv H. rewrite qwf_bin. auto.
-        -- unfold leafev_seq2 in H. destruct (leafev b sb i o cx) as [[[sb' trb] rb] h1] eqn:Hb.
-           destruct (Lb _ _ _ _ _ _ _ _ _ Hb Hqb) as [Hqb' Htb]. apply (trok_bin_b k a b) in Htb.
+        -- unfold leafev_seq2 in H.
+           destruct (child_ev (bin_throw k true) (bin_catch k true) b sb i (bin_in k true o) o cx)
+             as [[[sb' trb] rb] h1] eqn:Hb.
+           destruct (child_ev_q _ _ _ _ _ _ _ _ _ _ _ _ _ Lb Hqb Hb) as [Hqb' Htb]. apply (trok_bin_b k a b) in Htb.
            destruct rb as [ob|].
            ++ injection H as H Hh.
               destruct (start a (n_env ns) cx) as [[sa0 tra0] ra0] eqn:E1.
@@ -1715,7 +1835,7 @@ Lemma finally_a_done s b id ns sa tra oa cx r0a r0bl :
   hop b id -> snd (a_done BFinally s b ns sa tra oa cx r0a r0bl) = None.
 Proof.
   intros (Hs & _ & _). unfold a_done, after_first.
-  specialize (Hs (n_env ns) cx). destruct (start b (n_env ns) cx) as [[sb trb] rb]. simpl in Hs. subst rb.
+  specialize (Hs (n_env ns) cx). destruct oa; destruct (start b (n_env ns) cx) as [[sb trb] rb]; simpl in Hs; subst rb;
   reflexivity.
 Qed.
 
@@ -1744,11 +1864,16 @@ Proof.
   intros Hh. destruct st as [|cc sn|ns sa sb|sa sb|vv]; try (simpl; congruence).
   rewrite leafev_bin_seq by reflexivity.
   assert (H2 : snd (fst (leafev_seq2 BFinally s b ns sa sb i o cx)) <> None -> i = id).
-  { unfold leafev_seq2. destruct Hh as (_ & _ & Hl). specialize (Hl sb i o cx).
-    destruct (leafev b sb i o cx) as [[[sb' trb] rb] hh]. simpl in Hl.
-    destruct rb; [intros _; apply Hl; congruence|simpl; congruence]. }
+  { unfold leafev_seq2. destruct Hh as (_ & _ & Hl).
+    destruct (child_ev (bin_throw BFinally true) (bin_catch BFinally true) b sb i (bin_in BFinally true o) o cx)
+      as [[[sb' trb] rb] hh] eqn:Ec.
+    destruct (child_ev_none _ _ _ _ _ _ _ _ _ _ _ _ Ec) as (oin' & ro & h & E & Hro).
+    specialize (Hl sb i oin' cx). rewrite E in Hl. simpl in Hl.
+    destruct rb; [intros _; apply Hl; intros En; apply Hro in En; discriminate|simpl; congruence]. }
   destruct (ph ns); try exact H2.
-  unfold leafev_seq1. destruct (leafev s sa i o cx) as [[[sa' tra] ra] hh]. destruct ra; [|simpl; congruence].
+  unfold leafev_seq1.
+  destruct (child_ev (bin_throw BFinally false) (bin_catch BFinally false) s sa i (bin_in BFinally false o) o cx)
+    as [[[sa' tra] ra] hh]. destruct ra; [|simpl; congruence].
   pose proof (finally_a_done s b id ns sa' tra o0 cx (start s (n_env ns) cx)
                 (r0bl_of b (n_env ns) (start s (n_env ns) cx) cx) Hh) as Hn.
   destruct (a_done BFinally s b ns sa' tra o0 cx (start s (n_env ns) cx)
@@ -1831,6 +1956,16 @@ Proof.
   destruct (Nat.eqb i id) eqn:E; do 3 eexists; (split; [reflexivity|split; try congruence]).
   intros _. apply Nat.eqb_eq. exact E.
 Qed.
+Lemma sched_child_ev thr cat id c sa i oin o cx :
+  exists sa' ra hit, child_ev thr cat (Sched id c) sa i oin o cx = (sa', [], ra, hit) /\ (hit = true -> i = id) /\
+                     (ra <> None -> hit = true) /\ (ra = None \/ ra = Some (OVal 0) \/ ra = Some ODone).
+Proof.
+  unfold child_ev.
+  destruct sa as [|cc sn| | |]; simpl; try (do 3 eexists; split; [reflexivity|split; [congruence|split; [congruence|auto]]]).
+  destruct cc; [do 3 eexists; split; [reflexivity|split; [congruence|split; [congruence|auto]]]|].
+  destruct (Nat.eqb i id) eqn:E; [|do 3 eexists; split; [reflexivity|split; [congruence|split; [congruence|auto]]]].
+  apply Nat.eqb_eq in E. destruct sn; simpl; do 3 eexists; (split; [reflexivity|split; [auto|split; [auto|auto]]]).
+Qed.
 Lemma sched_stop id c sa cx : exists sa', stop (Sched id c) sa cx = (sa', [], None).
 Proof. destruct sa as [|cc sn| | |]; simpl; eauto. destruct cc, sn; eauto. Qed.
 
@@ -1856,14 +1991,16 @@ Proof.
   assert (H2 : forall st tr r hit, leafev_seq2 BSeq (Sched id c) (Un (UWithSched c) s) ns sa sb i o cx = (st, tr, r, hit) ->
                on_pending st -> ph ns = PFirst).
   { clear. intros st tr r hit H Hp. unfold leafev_seq2 in H.
-    destruct (leafev (Un (UWithSched c) s) sb i o cx) as [[[sb' trb] rb] hh].
+    destruct (child_ev (bin_throw BSeq true) (bin_catch BSeq true) (Un (UWithSched c) s) sb i (bin_in BSeq true o) o cx)
+      as [[[sb' trb] rb] hh].
     destruct rb; [|inv H; exact Hp]. unfold b_done, seq_final in H. simpl in H. inv H. contradiction Hp. }
   destruct (ph ns) eqn:Eph; try (specialize (H2 _ _ _ _ H Hp); discriminate).
   split; [exact Eph|]. unfold leafev_seq1 in H.
-  destruct (sched_leafev id c sa i o cx) as (sa' & ra & hh & E & _). rewrite E in H.
-  destruct ra as [oa|]; [|inv H; reflexivity].
+  destruct (sched_child_ev (bin_throw BSeq false) (bin_catch BSeq false) id c sa i (bin_in BSeq false o) o cx)
+    as (sa' & ra & hh & E & _ & _ & Hra). rewrite E in H.
+  destruct Hra as [->|[->| ->]]; [inv H; reflexivity| |].
+  2:{ exfalso. unfold a_done, after_first, seq_pass in H. simpl in H. inv H. exact Hp. }
   exfalso. unfold a_done, after_first in H.
-  destruct oa; try (unfold seq_pass in H; simpl in H; inv H; exact Hp).
   destruct (start (Un (UWithSched c) s) (n_env ns) cx) as [[sb' trb] rb].
   destruct rb; [unfold seq_final in H; simpl in H; inv H; exact Hp|]. inv H. simpl in Hp. discriminate.
 Qed.
@@ -1944,7 +2081,8 @@ Lemma on_leafev_pending id c s ns sa sb i o cx st tr r hit :
 Proof.
   unfold on. intros Eph H. rewrite leafev_bin_seq in H by reflexivity. rewrite Eph in H.
   unfold leafev_seq1 in H.
-  destruct (sched_leafev id c sa i o cx) as (sa' & ra & hh & E & Hi & Hr). rewrite E in H.
+  destruct (sched_child_ev (bin_throw BSeq false) (bin_catch BSeq false) id c sa i (bin_in BSeq false o) o cx)
+    as (sa' & ra & hh & E & Hi & Hr & _). rewrite E in H.
   destruct ra as [oa|].
   - injection H as _ <-. split; [exact Hi|]. intros ->. specialize (Hr ltac:(discriminate)). discriminate.
   - inv H. auto.
@@ -2034,16 +2172,19 @@ Proof.
                st = OFin /\ tr = [TSchedDtor c] /\
                exists seen, sb = OLeaf false seen /\ (seen = true -> oc = ODone) /\
                  (seen = false -> saved ns = Some oc \/ (saved ns = None /\ oc = OVal 0))).
-  { clear H. intros H. unfold leafev_seq2 in H.
+  { clear H. intros H. unfold leafev_seq2, child_ev in H.
     destruct sb as [|cc seen| | |]; try (simpl in H; discriminate H).
     destruct cc; [simpl in H; discriminate H|].
-    simpl in H. rewrite Nat.eqb_refl in H. unfold b_done, seq_final in H. simpl in H.
-    injection H as <- <- Ho _. split; [reflexivity|]. split; [reflexivity|].
-    exists seen. split; [reflexivity|]. destruct seen; simpl in Ho.
+    simpl in H. rewrite Nat.eqb_refl in H. unfold b_done, seq_final in H.
+    destruct seen; simpl in H;
+    injection H as <- <- Ho _; (split; [reflexivity|]); (split; [reflexivity|]);
+    [exists true|exists false]; (split; [reflexivity|]).
     - split; [intros _|discriminate]. destruct (saved ns); congruence.
     - split; [discriminate|intros _]. destruct (saved ns); [left; congruence|right; split; congruence]. }
   destruct (ph ns) eqn:Eph.
-  - exfalso. unfold leafev_seq1 in H. destruct (leafev s sa id o cx) as [[[sa' tra] ra] hh].
+  - exfalso. unfold leafev_seq1 in H.
+    destruct (child_ev (bin_throw BFinally false) (bin_catch BFinally false) s sa id (bin_in BFinally false o) o cx)
+      as [[[sa' tra] ra] hh].
     destruct ra; [|discriminate H].
     pose proof (finally_a_done s (Sched id c) id ns sa' tra o0 cx (start s (n_env ns) cx)
                   (r0bl_of (Sched id c) (n_env ns) (start s (n_env ns) cx) cx) (hop_sched id c)) as Hn.
@@ -2059,3 +2200,51 @@ Theorem wsa_via_root_sched id s pre script :
   forall o n cx, In (XRoot o n cx) (r_tr (exec (wsa_via id (e_sched (root_env pre)) s) pre script)) ->
                  cx = e_sched (root_env pre).
 Proof. intros H1 H2. apply wsa_via_completes_on_ctx; assumption. Qed.
+
+(* ================================================================================================ *)
+(* Part 5: [stage 4] a value copy that throws is turned into set_error (C05)                        *)
+(* ================================================================================================ *)
+(* A completion OValT v (a value whose copy / move throws) that reaches a node which STORES its child's value
+   surfaces at that node as OErr tcode:
+   - finally: the store throws, the source's result becomes the error, and the completion sender is still
+     connected and started; when it completes with a value the held error is delivered;
+   - let_value (predecessor), done_as_optional: the node completes with the error;
+   - when_all / when_any (either child): the child counts as having failed with the error. *)
+Theorem thrown_store_is_error v :
+  (forall a b ns sa tra cx r0a r0bl,
+     a_done BFinally a b ns sa tra (OValT v) cx r0a r0bl =
+     let '(sb, trb, rb) := start b (n_env ns) cx in
+     match rb with
+     | None => (ONode (ns_set_saved (ns_set_ph ns PSecond) (Some (OErr tcode))) OFin sb, (tra ++ dtor a sa) ++ trb, None)
+     | Some ob => seq_final BFinally b sb ((tra ++ dtor a sa) ++ trb) (after_second BFinally (Some (OErr tcode)) ob)
+     end) /\
+  (forall w, after_second BFinally (Some (OErr tcode)) (OVal w) = OErr tcode) /\
+  (forall a b ns sa tra cx r0a r0bl,
+     a_done BLetV a b ns sa tra (OValT v) cx r0a r0bl = (OCompl sa OFin, tra, Some (OErr tcode))) /\
+  (forall s sc tr, un_done UDoneOpt s sc tr (OValT v) = (OCompl sc OFin, tr ++ [], Some (OErr tcode))) /\
+  (forall ns i, conc_child_done BWhenAll ns i (OValT v) = conc_child_done BWhenAll ns i (OErr tcode)) /\
+  (forall ns i, conc_child_done BWhenAny ns i (OValT v) = conc_child_done BWhenAny ns i (OErr tcode)).
+Proof. repeat split; reflexivity. Qed.
+
+(* ... at the level of one external completion: whatever the source of a finally is, if the completion makes it
+   deliver a throwing value, the finally node starts its completion sender (on the same context) holding the error *)
+Theorem finally_thrown_runs_completion a b ns sa sb id o cx sa' tra v hit :
+  ph ns = PFirst ->
+  child_ev (bin_throw BFinally false) (bin_catch BFinally false) a sa id (bin_in BFinally false o) o cx
+    = ((sa', tra, Some (OValT v)), hit) ->
+  leafev (Bin BFinally a b) (ONode ns sa sb) id o cx =
+  (let '(sb', trb, rb) := start b (n_env ns) cx in
+   match rb with
+   | None => (ONode (ns_set_saved (ns_set_ph ns PSecond) (Some (OErr tcode))) OFin sb', (tra ++ dtor a sa') ++ trb, None)
+   | Some ob => seq_final BFinally b sb' ((tra ++ dtor a sa') ++ trb) (after_second BFinally (Some (OErr tcode)) ob)
+   end, hit).
+Proof.
+  intros Hp Hc. rewrite leafev_bin_seq by reflexivity. rewrite Hp. unfold leafev_seq1. rewrite Hc.
+  rewrite (proj1 (thrown_store_is_error v)). reflexivity.
+Qed.
+
+(* a harness leaf directly below: the script completion L<id>:t<v> *)
+Lemma leaf_thrown_child_ev i seen v cx :
+  child_ev (bin_throw BFinally false) (bin_catch BFinally false) (Leaf i) (OLeaf false seen) i
+           (bin_in BFinally false (OValT v)) (OValT v) cx = ((OLeaf true seen, [], Some (OValT v)), true).
+Proof. unfold child_ev. simpl. rewrite Nat.eqb_refl. reflexivity. Qed.
